@@ -79,6 +79,10 @@ func (m MemoryCache) Iterator(height int64, start, end []byte) (types.Iterator, 
 	if m.isHeightSafeToRead(height) {
 		for _, v := range m.pastHeights {
 			if v.height == height {
+				if end != nil && len(end) == 0 {
+					// an empty end bound that is not nil admits no key (as the tree iterator has it)
+					return NewMemoryHeightIterator(map[string]string{}, "", "", nil, true), nil
+				}
 				return NewMemoryHeightIterator(v.data, string(start), string(end), v.orderedKeys, true), nil
 			}
 		}
@@ -90,6 +94,10 @@ func (m MemoryCache) ReverseIterator(height int64, start, end []byte) (types.Ite
 	if m.isHeightSafeToRead(height) {
 		for _, v := range m.pastHeights {
 			if v.height == height {
+				if end != nil && len(end) == 0 {
+					// an empty end bound that is not nil admits no key (as the tree iterator has it)
+					return NewMemoryHeightIterator(map[string]string{}, "", "", nil, false), nil
+				}
 				return NewMemoryHeightIterator(v.data, string(start), string(end), v.orderedKeys, false), nil
 			}
 		}
